@@ -13,17 +13,17 @@ CHECKS = {
          "DESIGN.md section 3, C15"),
  "C03": ("exploration",
          "property-based testing + exhaustive tables: independent IR type lint of accepted programs; single injected typing violations with valid twins must be rejected",
-         "Accepted programs (generated programs with implicit conversions at initialisers, assignments, arguments and returns; every 1-2 operator expression tree on int / float / mixed operands; the repository's .rssl inputs) are type checked and the resulting module is walked by an independent checker with structural types - operand classes and equality for every operator, non-const lvalues for every write, call arity / argument types / out arguments, return types, constructor slots, initialiser shapes, conditions, subscripts, dangling ids - and by RSSL's own get_type asserts. 86 kinds of single typing violations x 15 expression / 5 statement / 3 return contexts x 3 placements (exhaustive on an empty base, random inside generated programs) plus a catalogue of 10 resource-related pairs must be rejected while their valid twins are accepted. 33 000 cases quick, about 400 000 thorough.",
+         "Accepted programs (generated programs with implicit conversions at initialisers, assignments, arguments and returns; every 1-2 operator expression tree on int / float / mixed operands; the repository's .rssl inputs) are type checked and the resulting module is walked by an independent checker with structural types - operand classes and equality for every operator, non-const lvalues for every write, call arity / argument types / out arguments, return types, constructor slots, initialiser shapes, conditions, subscripts, dangling ids - and by RSSL's own get_type asserts. 86 kinds of single typing violations x 15 expression / 5 statement / 3 return contexts x 3 placements (exhaustive on an empty base, random inside generated programs) plus a catalogue of 10 resource-related pairs must be rejected while their valid twins are accepted. Writes through every swizzle of length 1-4 on float2/3/4 in four write positions (8 160 cases) are accepted exactly when all components exist and none repeats. 41 000 cases quick, about 400 000 thorough.",
          "The linter models the resource-free subset; object types, intrinsic signatures and matrix aggregates are opaque (counted). Violation kinds are the ones HLSL itself rejects; break/continue outside loops are not typing and not covered. One recorded finding: KF-C03-1 (writes to constant buffer members).",
          "DESIGN.md section 3, C03"),
  "C01": ("translation_validation",
          "differential execution (property-based + exhaustive small shapes): interpreter of the typed IR vs an independent parser and evaluator of the emitted HLSL text",
-         "Every expression tree with 1-2 (quick) / 1-3 (thorough) operator nodes over the whole operator table on int, float and mixed int/float/uint/bool operands, and generated whole programs of the executable resource-free subset, are compiled for DirectX and Vulkan HLSL. The typed IR is run by an interpreter (RSSL's semantics) and the emitted text is parsed by an independent C-like parser and run by an evaluator with HLSL's rules (literal typing, usual arithmetic conversions, copy-in/copy-out) on 3 boundary argument vectors per function; return value, out/inout parameters and static globals are compared bit-exactly. 37 000 programs quick, about 1.2 M thorough.",
-         "Per-program validation by execution on sampled argument vectors, not a proof of equivalence. Trusted: harness/src/irsem.rs, ctext.rs, csem.rs and the shared value library vals.rs (which fixes one meaning for operations HLSL leaves undefined). Methods and namespaces are not generated yet.",
+         "Every expression tree with 1-2 (quick) / 1-3 (thorough) operator nodes over the whole operator table on int, float and mixed int/float/uint/bool operands, and generated whole programs of the executable resource-free subset, are compiled for DirectX and Vulkan HLSL. The typed IR is run by an interpreter (RSSL's semantics) and the emitted text is parsed by an independent C-like parser and run by an evaluator with HLSL's rules (literal typing, usual arithmetic conversions, copy-in/copy-out) on 3 boundary argument vectors per function; return value, out/inout parameters and static globals are compared bit-exactly. An exhaustive aliasing table (parameter modes x two-statement bodies x arguments drawn from two locals and a static) covers copy-in / copy-out when arguments alias. Every operator tree is additionally run on 8 crafted operand rows (cancellation, absorption, overflow, INT_MIN / -1, shift counts of 32). Generated programs include struct methods, nested namespaces and implicit conversions. 67 000 programs quick, about 1.5 M thorough.",
+         "Per-program validation by execution on sampled argument vectors, not a proof of equivalence. Trusted: harness/src/irsem.rs, ctext.rs, csem.rs and the shared value library vals.rs (which fixes one meaning for operations HLSL leaves undefined). Matrices and resources are outside the executable subset.",
          "DESIGN.md section 3, C01"),
  "C02": ("translation_validation",
          "differential execution (property-based + exhaustive small shapes): interpreter of the typed IR vs an independent parser and evaluator of the emitted Metal text under C++ rules",
-         "As C01 for the Metal target: reference parameters alias, calls must match a declared function by arity and tag type, brace initialisation zero-fills, metal:: builtins are mapped by a per-dialect table, implicit parameters for static globals are bound by name and their final values compared with the interpreter's globals, out/inout parameters go through the emitted trampolines. Text that is not meaningful as C++ is a violation. 27 000 programs quick, about 0.8 M thorough.",
+         "As C01 for the Metal target: reference parameters alias, calls must match a declared function by arity and tag type, brace initialisation zero-fills, metal:: builtins are mapped by a per-dialect table, implicit parameters for static globals are bound by name and their final values compared with the interpreter's globals, out/inout parameters go through the emitted trampolines. Text that is not meaningful as C++ is a violation. The aliasing table and the crafted operand rows of C01 are run for Metal as well. 43 000 programs quick, about 0.9 M thorough.",
          "Per-program validation by execution on sampled argument vectors. Static globals are initialised by a pipeline entry point that no-pipeline mode does not emit, so their initial values come from the IR. One recorded finding: KF-C02-1 (float %= in Metal).",
          "DESIGN.md section 3, C02"),
  "C12": ("exploration",
@@ -38,7 +38,7 @@ CHECKS = {
          "DESIGN.md section 3, C09"),
  "C08": ("exploration",
          "fuzzing / property-based testing under supervised worker processes (panic, process death, CPU budget)",
-         "Byte strings, token soups, bracket soups, nested parentheses / blocks / cast-like prefixes, generated programs (valid and with 1-3 structural mutations incl. extreme literals and unterminated constructs), mutated copies of the repository's own inputs and a 45-entry catalogue of unsupported or unusual constructs (also crossed with API defines) are compiled for 5 targets x {all, named, no-pipeline} x layout validation x API defines inside supervised worker processes. A panic (caught, keyed by source file + message), a dead worker (stack overflow, abort), an empty diagnostic or CPU time beyond 2 s per 4 KB (re-run alone before reporting) is a violation. 40 000 inputs quick, 1.2 M thorough.",
+         "Byte strings, token soups, bracket soups, nested parentheses / blocks / cast-like prefixes, generated programs (valid and with 1-3 structural mutations incl. extreme literals and unterminated constructs), mutated copies of the repository's own inputs and a 45-entry catalogue of unsupported or unusual constructs (also crossed with API defines) are compiled for 5 targets x {all, named, no-pipeline} x layout validation x API defines inside supervised worker processes. A panic (caught, keyed by source file + message), a dead worker (stack overflow, abort), an empty diagnostic or CPU time beyond 2 s per 4 KB (re-run alone before reporting) is a violation. Constant expressions with boundary operands in six constant positions and every binary operator on every pair of 45 boundary constants (73 000 programs, exhaustive) exercise the folding paths. 119 000 inputs quick, 1.5 M thorough.",
          "Built with debug assertions and overflow checks on (as the repository's cargo test). One recorded finding: KF-C08-1 (slot arithmetic overflow for gigantic resource arrays). Inputs above about 6 KB and memory exhaustion are not explored.",
          "DESIGN.md section 3, C08"),
  "C05": ("exploration",
@@ -53,7 +53,7 @@ CHECKS = {
          "DESIGN.md section 3, C14"),
  "C07": ("exploration",
          "property-based testing: repeated evaluation in one process and in 8 fresh processes (hash-seed schedules)",
-         "Generated inputs sized so that every hash-ordered collection in the anchored passes has several elements (resources over several bind groups incl. buffer addresses, several statics per function for Metal's implicit parameters, names colliding with generated _N suffixes, include graphs with #pragma once, rejected variants) are compiled 4 times in one process - every compile creates fresh HashMaps with fresh seeds - and once in each of 8 freshly spawned worker processes; the complete result (sources, stages, metadata, state or diagnostic) must be identical. 1 500 inputs x 4 in-process + 400 inputs x 8 processes quick; 40 000 + 6 000 x 8 thorough.",
+         "Generated inputs sized so that every hash-ordered collection in the anchored passes has several elements (resources over several bind groups incl. buffer addresses, several statics per function for Metal's implicit parameters, names colliding with generated _N suffixes, include graphs with #pragma once, rejected variants) are compiled 4 times in one process - every compile creates fresh HashMaps with fresh seeds - and once in each of 8 freshly spawned worker processes; the complete result (sources, stages, metadata, state or diagnostic) must be identical. A dedicated part declares overload sets of one name (also reserved words) at global scope and in sibling / nested namespaces, so that several scopes need generated names from one base. 2 100 inputs x 4 in-process + 400 inputs x 8 processes quick; 55 000 + 6 000 x 8 thorough.",
          "Assumes hash seeds are the only schedule (no clock, thread, address or environment dependence was found by reading). Deleting any of the four sorts named in the property is detected within the quick tier.",
          "DESIGN.md section 3, C07"),
  "C17": ("exploration",
